@@ -316,7 +316,7 @@ def _r3(ctx):
 
 def _r4(ctx):
     prog = ctx.prog
-    ctx.rule("R-C12-4", floor=2, what="re-binning membership partitions [0, max] into adjacent bins")
+    ctx.rule("R-C12-4", floor=3, what="re-binning membership partitions [0, max] into adjacent bins")
     f = prog.functions.get(MS + ":MeanstressTransformMatrix._rebin_results.sum_intervals")
     if f is None:
         raise AnalysisError("sum_intervals helper not found")
@@ -359,6 +359,22 @@ def _r4(ctx):
     else:
         ctx.violated(f, ret[0], "re-binning membership is not a partition: %s (position of the range relative to edges 0<2<4<6, "
                      "number of bins containing it)" % bad[:3], text="membership %s %s %s" % (first_op, other_op, right_op))
+    rb = prog.func(MS + ":MeanstressTransformMatrix._rebin_results")
+    uses = []
+    for n in ast.walk(rb.node):
+        if isinstance(n, ast.Call) and isinstance(n.func, ast.Name) and n.func.id == f.name:
+            uses.append(n)
+    other = [c for c in calls_in(rb.node) if (call_name(c) or "") in ("pd.cut", "pd.qcut", "np.histogram", "np.digitize",
+                                                                     "np.histogram2d", "np.searchsorted", "np.bincount")]
+    paths = [n for n in ast.walk(rb.node) if isinstance(n, (ast.FunctionDef, ast.Lambda)) and n is not rb.node and
+             any(isinstance(c.func, ast.Name) and c.func.id == f.name for c in calls_in(n))]
+    if len(uses) >= 2 and not other:
+        ctx.holds(rb, uses[0], "both aggregation paths (with and without additional index levels) use the verified membership "
+                  "predicate (%d call sites), no library binning with other edge rules" % len(uses))
+    else:
+        ctx.violated(rb, other[0] if other else rb.node, "re-binning does not go through the membership predicate on every path "
+                     "(%d call sites%s): the paths with and without additional index levels would bin edge values differently"
+                     % (len(uses), ", library binning %s" % call_name(other[0]) if other else ""), text="rebin paths")
     g = prog.functions.get(MS + ":MeanstressTransformMatrix._rebin_results.resulting_intervals")
     ls = [c for c in calls_in(g.node, name="np.linspace")] if g else []
     mx = None
@@ -494,6 +510,15 @@ def variants():
                 return True
         return False
     out.append(witness("all bins [l,r]: edge values counted twice", MP, both_closed, "R-C12-4"))
+
+    def cut_path(tree):
+        f = _nested(tree, "MeanstressTransformMatrix._rebin_results.aggregate_on_projection")
+        for st in f.body:
+            if isinstance(st, ast.Assign) and isinstance(st.targets[0], ast.Name) and st.targets[0].id == "sums":
+                st.value = parse_expr("obj.groupby(pd.cut(ranges.values, itvs), observed=False).sum()")
+                return True
+        return False
+    out.append(witness("one aggregation path bins with pd.cut", MP, cut_path, "R-C12-4"))
 
     # twins
     def shift_rewritten(tree):
